@@ -89,6 +89,7 @@ func urlReplay(s *Summary, raw json.RawMessage) {
 				target = r.AddNamed("target", c.Pat, nopHandler)
 			}
 			r.GET("/zz", nopHandler)
+			r.AddNamed("zz-named", "/zz/named", nopHandler)
 			var u *url.URL
 			desc := func(aspect, what string) map[string]any {
 				return map[string]any{"kind": "url", "aspect": aspect, "pattern": c.Pat, "values": want, "style": style, "what": what}
@@ -119,8 +120,11 @@ func urlReplay(s *Summary, raw json.RawMessage) {
 					} else {
 						u = r.BuildURL("target", args...)
 					}
-				default: // builder
+				default: // builder (one builder object used for another named route first: every call starts from the route asked for)
 					b := rux.NewBuildRequestURL()
+					if it%2 == 0 {
+						_ = r.BuildRequestURL("zz-named", b)
+					}
 					pm := rux.M{}
 					for k, v := range want {
 						pm["{"+k+"}"] = urlArg(v)
@@ -199,11 +203,23 @@ func urlArg(v string) any {
 }
 
 func urlNames(s *Summary, c *urlCase) {
+	// twice: every route on a path of its own, and all routes on ONE path with a method of their own (same name and same
+	// path registered again for another method is still "registered most recently under that name")
+	for _, samePath := range []bool{false, true} {
+		urlNamesRun(s, c, samePath)
+	}
+}
+
+func urlNamesRun(s *Summary, c *urlCase, samePath bool) {
+	methods := []string{"GET", "POST", "PUT", "PATCH", "DELETE", "OPTIONS", "HEAD", "TRACE", "CONNECT"}
 	r := rux.New()
 	paths := map[int]string{}
 	made := map[int]*rux.Route{}
 	for _, op := range c.Ops {
-		p := fmt.Sprintf("/r%d", op.Route)
+		p, m := fmt.Sprintf("/r%d", op.Route), "GET"
+		if samePath {
+			p, m = "/same", methods[op.Route%len(methods)]
+		}
 		paths[op.Route] = p
 		if op.API == "Rename" {
 			made[op.Route].NamedTo(op.Name, r)
@@ -211,15 +227,15 @@ func urlNames(s *Summary, c *urlCase) {
 		}
 		switch op.API {
 		case "AddNamed":
-			made[op.Route] = r.AddNamed(op.Name, p, nopHandler)
+			made[op.Route] = r.AddNamed(op.Name, p, nopHandler, m)
 		case "NewNamedRoute+AddRoute":
-			made[op.Route] = r.AddRoute(rux.NewNamedRoute(op.Name, p, nopHandler))
+			made[op.Route] = r.AddRoute(rux.NewNamedRoute(op.Name, p, nopHandler, m))
 		case "NewNamedRoute+AttachTo":
-			rt := rux.NewNamedRoute(op.Name, p, nopHandler)
+			rt := rux.NewNamedRoute(op.Name, p, nopHandler, m)
 			rt.AttachTo(r)
 			made[op.Route] = rt
 		case "Add+NamedTo":
-			rt := r.Add(p, nopHandler)
+			rt := r.Add(p, nopHandler, m)
 			rt.NamedTo(op.Name, r)
 			made[op.Route] = rt
 		default:
@@ -233,13 +249,13 @@ func urlNames(s *Summary, c *urlCase) {
 	}
 	for name, id := range c.Table {
 		rt := r.GetRoute(name)
-		if rt == nil || rt.Path() != paths[id] {
+		if rt == nil || rt != made[id] {
 			got := "nil"
 			if rt != nil {
-				got = rt.Path()
+				got = rt.String()
 			}
-			s.mismatch(map[string]any{"kind": "url", "aspect": "names", "what": fmt.Sprintf("after %s: GetRoute(%q) = %s, the most recently registered is %s",
-				strings.Join(apis, ", "), name, got, paths[id])}, c)
+			s.mismatch(map[string]any{"kind": "url", "aspect": "names", "what": fmt.Sprintf("after %s (all routes on one path: %v): GetRoute(%q) = %s, the most recently registered is %s",
+				strings.Join(apis, ", "), samePath, name, got, made[id].String())}, c)
 			return
 		}
 		if u := r.BuildURL(name); u.Path != paths[id] {
